@@ -59,7 +59,7 @@ CHECKS = {
     "C01": dict(level="other", design="5/C01",
                 technique="abstract interpretation (affine forms) of the polymorphic window arithmetic per orientation case, decoded through the MIPI MY/MX/MV model and compared with the geometric oracle; bounded Farkas for overflow obligations",
                 text="For each of the 8 orientations the column/page arguments emitted by set_pixels are affine forms whose decoding under the orientation's address mode equals, identically in (lx,ly), offset + mirror(rotate_cw(lx,ly)); both corners share the offsets; set_pixel, fill_solid, fill_contiguous hand exactly their logical coordinates (clipped rectangle corners) to that arithmetic, clipping against (0,0,logical w,h); clear is the trait default; the u16 arithmetic cannot wrap and window ends stay inside the framebuffer under I_init. One polymorphic body covers all models (1x1..65535x65535) and transports.",
-                note="Level 'other': grouping of batched draw_iter pixels into windows is C03 (not decided); 'last colour wins / no other cell changes' relies on the controller model plus C08. Trusted: rustc MIR, interpreter, MIPI decode model, C14, C18, C09, e-g-core intersection/bounding_box contracts."),
+                note="Level 'other': grouping of batched draw_iter pixels into windows is decided under C03; 'last colour wins / no other cell changes' relies on the controller model plus C08. Trusted: rustc MIR, interpreter, MIPI decode model, C14, C18, C09, e-g-core intersection/bounding_box contracts."),
     "C03": dict(level="other", design="5/C03",
                 technique="per-call refinement (simulation) check by abstract interpretation: the transition relations of the two accumulators and of draw_batch are decided on symbolic states with heapless::Vec contents as uninterpreted sequence terms, under the accumulator invariants found by the loop analysis (C08)",
                 text="With `batch`: every path of RowIterator::next is first-pixel / append / flush / end-pending / end-empty and satisfies pending(before) ++ [pixel] = emitted ++ pending(after) (an appended pixel's colour is pushed at the end and it sits at (x_left + len, y); a flushed row is handed on unchanged; the pixel that caused the flush starts the next row; the trailing row is emitted at the end of the stream); the same for BlockIterator::next over rows (appended only directly below with identical columns, colours concatenated); draw_batch sends each block once, in order, as its own window with its own colours and nothing else.",
@@ -75,7 +75,7 @@ CHECKS = {
     "C08": dict(level="other", design="5/C08",
                 technique="DFA over interpreted event traces (loops as fixpoints) for the framing language; entailment of start<=end / end-inside-framebuffer; polynomial identity pixel count == window area; for the batched draw_iter, relational loop invariants of the row/block accumulators found by Houdini over type-generated candidates (checked inductively at loop entry and every back edge, equalities eliminated by Gaussian substitution)",
                 text="Every drawing entry point (8 orientations, both batch settings) emits only groups CASET RASET RAMWR pixels, error paths being prefixes; for the fill methods, set_pixel and every window group draw_iter emits (batched or not) start <= end and the end is inside the framebuffer; fill_solid's repeat count and fill_contiguous's take limit equal (ex-sx+1)*(ey-sy+1); every block the batched draw_iter flushes carries exactly (x_right-x_left+1)*(y_bottom-y_top+1) colours.",
-                note="Level 'other'. The accumulator invariants are derived for two orientations in the quick tier (they do not depend on it) and for all eight, plus the 16-bit-pointer build, in the thorough tier. Four big-endian bytes per address command: C18. That the colours inside a block are the right ones in the right order is C03 (not decided)."),
+                note="Level 'other'. The accumulator invariants are derived for two orientations in the quick tier (they do not depend on it) and for all eight, plus the 16-bit-pointer build, in the thorough tier. Four big-endian bytes per address command: C18. That the colours inside a block are the right ones in the right order is decided under C03."),
     "C20": dict(level="other", design="5/C20",
                 technique="event counting on interpreted traces (window set-ups per fill, loop depth of SPI writes), capacity constants read from heapless::Vec type arguments, path-infeasibility rule on the row accumulator's next() under the stated in-bounds precondition, relational loop invariant (conserved quantity) plus entailment for the SPI transaction bound",
                 text="Exactly one CASET/RASET/RAMWR per successful fill_solid / fill_contiguous and none in a loop (clear is the default); with batch, draw_iter never falls back to single-pixel bursts and 2 <= row capacity <= block capacity; the row accumulator hands a row on, while pixels keep coming, only on paths where 'the pixel just pulled is the right-hand neighbour on the same line and the row is not full' is infeasible (so a run is cut only at the capacity); no SPI write sits in the per-pixel staging loop; the SPI transaction bound of send_pixels: every write after which more pixels are taken from the stream carries exactly N*floor(len/N) bytes, hence at most floor(b/usable)+1 transactions (from the loop invariant 'staged bytes = N x chunks handed out', a conserved quantity found by Houdini, and the exact count of the ChunksExact iterator).",
